@@ -55,3 +55,6 @@ def run(chk, facts, tier):
     chk.ob(rule, "equality:full-type", both, "equality-like operators require the full type of both operands (%d full_type_required sites): %s" % (len(ft), both), where=f.where(), fn=f.name)
     from rules import c17_slice
     c17_slice.check(chk, facts)
+    from rules import c17_consume
+    c17_consume.check(chk, facts)
+    c17_consume.ancestors_threading(chk, facts)
